@@ -1,5 +1,5 @@
 """C02 — SIMD back-ends equal the portable one: routing and table clauses (DESIGN §4 C02)."""
-from ..engines import dispatch_rules, simd_rules, loadwidth
+from ..engines import dispatch_rules, simd_rules, loadwidth, row_coverage
 from ..progs import programs
 
 
@@ -12,4 +12,5 @@ def run(rep, tier):
         dispatch_rules.t_precision(rep, prog, "C02.precision")
         simd_rules.conv_saturate(rep, prog, "C02.saturate")
         simd_rules.zero_extend(rep, prog, "C02.zero-extend")
+        row_coverage.group_tail(rep, prog, "C02.kernel-rows")
         loadwidth.guard_adequacy(rep, prog, "C02.loadwidth", loadwidth.FLOOR.get(cfg, 50))
